@@ -4,6 +4,7 @@ import (
 	"bufio"
 	"bytes"
 	"errors"
+	"fmt"
 	"io"
 
 	gots "github.com/Comcast/gots/v2"
@@ -23,6 +24,9 @@ type C16Script struct {
 	BufSize int              `json:"buf_size"`
 	Reads   []parties.ReadOp `json:"reads"`
 	Default string           `json:"default_read,omitempty"` // outcome once Reads is used up ("" = full)
+	// Again > 0: after a successful Sync the caller consumes Again bytes and calls Sync once
+	// more; the offset is then counted from that new position
+	Again int `json:"again,omitempty"`
 }
 
 type c16 struct{}
@@ -41,7 +45,7 @@ func (c16) Info() core.Info {
 			"oracle is a reference scan written from the property statement (first i with s[i]=0x47, i+4<=len, AFC!=00, PID not in 4..15)",
 			"an injected reader error delivered before the header's 4th byte may surface as that error; nothing else is relaxed",
 		},
-		RequiredProbes: []string{"false_sync_afc0", "false_sync_reserved_pid", "false_sync_then_true", "sync_in_last_3", "notfound", "found_at_0", "preread"},
+		RequiredProbes: []string{"false_sync_afc0", "false_sync_reserved_pid", "false_sync_then_true", "sync_in_last_3", "notfound", "found_at_0", "preread", "sync_again"},
 	}
 }
 
@@ -168,6 +172,9 @@ func (c16) Gen(r *core.Rand, tier string) interface{} {
 	}
 	if r.Chance(1, 6) {
 		s.Reads = parties.GenReadOps(r, r.Range(0, 12), r.PickS("frag", "mixed"), true)
+	}
+	if r.Chance(1, 4) {
+		s.Again = r.Pick(1, 2, 4, 187, 188, 189, r.Range(1, 400))
 	}
 	return s
 }
@@ -408,6 +415,37 @@ func (c16) Exec(script interface{}, c *core.Ctx) {
 		c.Fail("is_synced", "not_synced_after_sync", ierr, "true")
 		return
 	}
+	// (only without injected read errors: the buffering layer may still hold one, and what a
+	// second search does with a stored error is not the statement's subject)
+	if s.Again > 0 && s.Again <= len(rest)-want && !parties.HasErrOps(s.Reads) {
+		// consume Again bytes (they must be the packet's bytes), then search again
+		buf := make([]byte, s.Again)
+		n, _ := io.ReadFull(rd, buf)
+		if n != s.Again || !bytes.Equal(buf, rest[want:want+s.Again]) {
+			c.Fail("position", "reader_not_at_header", n, s.Again)
+			return
+		}
+		rest2 := rest[want+s.Again:]
+		want2 := refSync(rest2)
+		c.Probe("sync_again")
+		var off2 int64
+		var err2 error
+		if !c.Call("packet.Sync(again)", func() { off2, err2 = packet.Sync(ps) }) {
+			return
+		}
+		c.Log("sync again off=%d err=%v want=%d", off2, err2, want2)
+		switch {
+		case want2 < 0:
+			if err2 != gots.ErrSyncByteNotFound {
+				c.Fail("notfound", "again:found_where_none_exists", fmt.Sprint(off2, err2), "ErrSyncByteNotFound")
+			}
+			return
+		case err2 != nil || off2 != int64(want2):
+			c.Fail("offset", "again:offset_counted_from_wrong_position", fmt.Sprint(off2, err2), want2)
+			return
+		}
+		rest, want = rest2, want2
+	}
 	got := readRest(rd)
 	if !bytes.Equal(got, rest[want:]) {
 		c.Fail("position", "reader_not_at_header", len(got), len(rest)-want)
@@ -451,6 +489,11 @@ func (c16) Shrink(script interface{}) []interface{} {
 		n = cp()
 		n.Stream = n.Stream[s.PreRead:]
 		n.PreRead = 0
+		out = append(out, n)
+	}
+	if s.Again > 0 {
+		n := cp()
+		n.Again = 0
 		out = append(out, n)
 	}
 	if s.Scanner != "bufio" {
